@@ -23,10 +23,13 @@ def proved_tier(run, pid, cfg, tier, collect=None):
     timeout = 30 if tier == 'quick' else 120
     summary = {}
     from engine.pyvc import run as pv
+    items = []
     for modname, key, include, exclude in cfg.get('pyvc', ()):
-        mod = importlib.import_module(modname)
-        contract = mod.CONTRACTS[key]
-        obls, info = pv.verify(contract, timeout_s=timeout, include=include, exclude=exclude)
+        items.append((key, importlib.import_module(modname).CONTRACTS[key], include, exclude))
+    results = pv.verify_many(items, timeout_s=timeout) if items else {}
+    for modname, key, include, exclude in cfg.get('pyvc', ()):
+        contract = importlib.import_module(modname).CONTRACTS[key]
+        obls, info = results[key]
         locked = lock.get(key)
         fn = contract.module + '.' + contract.name
         if info['status'] != 'ok':
